@@ -6,7 +6,7 @@ ROOT = os.path.dirname(os.path.dirname(os.path.abspath(__file__)))
 # SEED_REPO: a scratch worktree of /repo to apply the patches to (the checks then read it through VERIF_REPO); default /repo itself
 REPO = os.environ.get("SEED_REPO", "/repo")
 ENV = dict(os.environ, VERIF_REPO=REPO) if REPO != "/repo" else dict(os.environ)
-EXTRA = {"C09-I": ["C14"], "C04-B": ["C20"], "C20-B": ["C09"], "C01-A": ["C03"], "C03-B": ["C01"], "C01-F": ["C02"], "C01-E": ["C04"], "C15-E": ["C01"], "C10-D": ["C09"], "C02-D": ["C03"], "C19-F": ["C02"]}
+EXTRA = {"C09-I": ["C14"], "C15-I": ["C01"], "C16-I": ["C07"], "C04-B": ["C20"], "C20-B": ["C09"], "C01-A": ["C03"], "C03-B": ["C01"], "C01-F": ["C02"], "C01-E": ["C04"], "C15-E": ["C01"], "C10-D": ["C09"], "C02-D": ["C03"], "C19-F": ["C02"]}
 ONLY = set(sys.argv[1:])          # optional: seed names to (re)run; the other rows are kept from the last report
 res = {}
 if ONLY and os.path.exists(os.path.join(ROOT, "seeded", "RESULTS.json")):
